@@ -7,6 +7,7 @@ EXTREMES = "seq"   # worker re-labels every sixth case to the ends of the legal 
 RESTATE = "seq"    # worker adds a signature restating the one in force to every fifth case (gen.restate_signatures)
 CANONICAL_ABS = True   # cut-off pairs notes over the canonically sorted list (oracle.abs_order)
 SPLIT_WAITS = "seq"   # worker: every fifth case is built from relative messages with rests split into adjacent waits
+SCALE = True   # worker: every fortieth case is blown up by scale_case below
 PROP = "C18"
 MONITORS = ["c18"]
 INSITU = {"k": "pad or cutoff or scale or tokenisation or bar or composition or channel"}
@@ -21,6 +22,21 @@ FLOORS = {"quick": {"pad.duration.armed": 1200, "cutoff.notes.armed": 1200, "sca
           "thorough": {"pad.duration.armed": 30000, "cutoff.notes.armed": 30000, "scale.notes.armed": 50000}}
 DEFAULT_VALUES = gen.DEFAULT_NOTE_VALUES
 
+
+def scale_case(case, i):
+    if case["op"] == "scaleq":
+        return
+    sp = case["seq"]
+    sp["notes"] = gen.big_notes(i, chans=(0, 1, 2), pitches=(60, 61, 62), lmin=1, lmax=50, gap=(0, 40))
+    sp.pop("pad", None)
+    case["prefix"] = []
+    if case["op"] == "pad":
+        case["n"] = gen.end_of(sp) + (i % 3 - 1) * 1000
+    if case["op"] == "cutoff":
+        # held notes under the melody: they start early and end after the last of the other long notes
+        end = gen.end_of(sp)
+        sp["notes"] += [[0, 36, 0, end + 5, 64], [0, 38, 10, end // 2, 65], [3, 40, 5, end - 20, 66]]
+        case["m"], case["r"] = 30, 1 + i % 30
 
 def make_case(rng, i, tier):
     op = ["pad", "cutoff", "scale", "scaleq", "chan"][i % 5]
